@@ -16,7 +16,7 @@ func C06(e *simkern.Env) {
 		maxOps = 10
 	}
 	ops := pipew.GenOps(tp, pipew.GenCfg{MinOps: 1, MaxOps: maxOps, OnlyStream: true, FailBias: 5, InitFail: true,
-		Cancel: true, Cast: true, WriteAhead: true, Levels: true, MaxTurns: 7, NonceBase: 2000, EmitMeta: true, InputMeta: true, AfterCancel: true, ZeroRows: true})
+		Cancel: true, Cast: true, WriteAhead: true, Levels: true, MaxTurns: 7, NonceBase: 2000, EmitMeta: true, InputMeta: true, AfterCancel: true, ZeroRows: true, NoHook: true})
 	kn := pipew.DrawKnobs(tp)
 	e.Knob("frag", kn.Frag)
 	e.Knob("yield_on_write", kn.YieldOnWrite)
@@ -202,7 +202,7 @@ func streamJudge(e *simkern.Env, prefix string, i int, r *pipew.OpResult, withRe
 		return bad("turn-count-on-state", "state ran %d turns, expected %d", rec.ProduceCalls+rec.ExchangeCalls, ex.Processed)
 	}
 	wantCancel := 0
-	if ex.Cancel {
+	if ex.Cancel && !op.Script.NoHook {
 		wantCancel = 1
 	}
 	if rec.CancelCalls != wantCancel {
